@@ -103,7 +103,12 @@ func verifC06Split(nSeries, nameLen, tagLen, maxShards int, mixedTypes bool) {
 	keys := make([]verifKey, nSeries)
 	vals := make([]int64, nSeries)
 	for i := range keys {
-		keys[i] = verifKey{name: nondetString(nameLen), tags: nondetString(tagLen), typ: typ0}
+		nl := nameLen
+		if nameLen < 0 {
+			// per-series name length: empty or one byte (symbolic)
+			nl = verifConcrete(nondetIntIn(0, 1), 0, 1)
+		}
+		keys[i] = verifKey{name: nondetString(nl), tags: nondetString(tagLen), typ: typ0}
 		if mixedTypes && i > 0 {
 			keys[i].typ = verifConcrete(nondetIntIn(0, 3), 0, 3)
 		}
@@ -131,15 +136,23 @@ func verifC06Split(nSeries, nameLen, tagLen, maxShards int, mixedTypes bool) {
 		}
 	}
 	verifReach("split")
-	// determinism: the same series in a different batch goes to the same shard index
-	mm2 := NewMetricMap(false)
-	verifPut(mm2, keys[0], vals[0])
+	// determinism: the same series in different batches (visited first, or after another series)
+	// goes to the same shard index
 	other := verifKey{name: nondetString(1), tags: "", typ: keys[0].typ}
 	verifAssume(other.name != keys[0].name || other.tags != keys[0].tags)
-	verifPut(mm2, other, 1)
-	parts2 := mm2.Split(c)
-	n, idx, _ := verifFind(parts2, keys[0], vals[0])
-	verifAssert(n == 1 && idx == idx0, "shard of a series depends on the rest of the batch")
+	for order := 0; order < 2; order++ {
+		mm2 := NewMetricMap(false)
+		if order == 0 {
+			verifPut(mm2, keys[0], vals[0])
+			verifPut(mm2, other, 1)
+		} else {
+			verifPut(mm2, other, 1)
+			verifPut(mm2, keys[0], vals[0])
+		}
+		parts2 := mm2.Split(c)
+		n, idx, _ := verifFind(parts2, keys[0], vals[0])
+		verifAssert(n == 1 && idx == idx0, "shard of a series depends on the rest of the batch")
+	}
 	verifReach("determinism")
 }
 
@@ -151,6 +164,8 @@ func VerifC06_Split_3_2_2_6() { verifC06Split(3, 2, 2, 6, false) }
 func VerifC06_Split_2_0_0_2() { verifC06Split(2, 0, 1, 2, false) }
 func VerifC06_Split_4_1_1_4() { verifC06Split(4, 1, 1, 4, false) }
 
+func VerifC06_SplitAnyName_2_3() { verifC06Split(2, -1, 1, 3, false) }
+func VerifC06_SplitAnyName_3_2() { verifC06Split(3, -1, 0, 2, false) }
 func VerifC06_SplitMixed_2_1_1_3() { verifC06Split(2, 1, 1, 3, true) }
 func VerifC06_SplitMixed_3_1_0_2() { verifC06Split(3, 1, 0, 2, true) }
 
